@@ -170,8 +170,96 @@ def make_config(rng, **ov):
     cfg["baseline"] = "P_none"
     cfg["duration_method"] = rng.choice(["measurement-based", "component-based"])
     cfg["duration_factor"] = rng.choice([1.0, 0.5, 0.75])
+    if ov.get("wide"):
+        apply_wide(cfg, ov["wide"])
     for k, v in ov.items():
-        cfg[k] = v
+        if k != "wide":
+            cfg[k] = v
+    return cfg
+
+
+# ------------------------------------------------------------------------------------------------
+# "wide" configurations: leaves of the parameter space the base generator never varies, and boundary
+# values of those it does (tools/param_coverage.py lists both).  Opt-in (`make_config(rng, wide=True)` or
+# `wide=["tag", ...]`): the base draws are unchanged, the extra choices come from a derived generator.
+# Every applied entry is recorded in cfg["wide_applied"]; oracles must read the values from the cfg.
+# ------------------------------------------------------------------------------------------------
+def _wide_catalogue(cfg):
+    y0, y1 = cfg["start"][0], cfg["end"][0]
+    years = [[y0]] + ([[y1], [y0, y1]] if y1 > y0 else [])
+    mob = [m for m, d in cfg["methods"].items() if d["deployment_type"] == "mobile" and not d["is_follow_up"]]
+    scr = [m for m, d in cfg["methods"].items() if d.get("follow_up") and d["deployment_type"] == "mobile"]
+    sta = [m for m, d in cfg["methods"].items() if d["deployment_type"] == "stationary"]
+    cat = []
+    for m in mob:
+        cat += [("crews", ("m", m, "crew_count"), [0, 3, 5]),
+                ("years", ("m", m, "years"), years),
+                ("coverage", ("m", m, "spatial"), [0.0, 0.25]),
+                ("coverage", ("m", m, "temporal"), [0.0, 0.5]),
+                ("workday", ("m", m, "max_workday"), [1, 4, 24]),
+                ("workday", ("m", m, "survey_time"), [1, 480, 600]),
+                ("workday", ("m", m, "t_bw_sites"), [[0.0], [60.0, 0.0], [240.0]]),
+                ("delays", ("m", m, "reporting_delay"), [30]),
+                ("freq", ("m", m, "surveys_per_year"), [24, 52]),
+                ("months", ("m", m, "months"), [[1], [12], [2, 7]]),
+                ("cost", ("m", m, "cost"), [{"per_day": 512.0, "per_site": 64.0, "upfront": 256.0},
+                                            {"per_day": 0.0, "per_site": 0.0, "upfront": 0.0}]),
+                ("weather", ("m", m, "weather_envelopes"),
+                 [{"temperature": [-10.0, 25.0], "wind": [0.0, 10.0], "precipitation": [0.0, 0.5]},
+                  {"temperature": [-40.0, 40.0], "wind": [0.0, 3.0], "precipitation": [0.0, 0.0]},
+                  {"temperature": [0.0, 0.0], "wind": [0.0, 10.0], "precipitation": [0.0, 0.5]}])]
+    for m in scr:
+        cat += [("followup", ("m", m, "follow_up", "proportion"), [0.0, 0.07, 0.25]),
+                ("followup", ("m", m, "follow_up", "threshold"), [100.0, 0.125]),
+                ("followup", ("m", m, "follow_up", "delay"), [30, 1]),
+                ("followup", ("m", m, "follow_up", "instant_threshold"), [0.5, 2.0]),
+                ("followup", ("m", m, "follow_up", "sort_by_rate"), [False])]
+    for m in sta:
+        cat += [("followup", ("m", m, "follow_up", "instant_threshold"), [2.0]),
+                ("followup", ("m", m, "follow_up", "rolling", "small_window"), [1, 7]),
+                ("followup", ("m", m, "follow_up", "rolling", "large_window"), [2, 30]),
+                ("coverage", ("m", m, "spatial"), [0.5, 0.0]),
+                ("months", ("m", m, "months"), [[3, 4, 5, 6, 7, 8, 9]]),
+                ("years", ("m", m, "years"), years),
+                ("cost", ("m", m, "cost"), [{"per_day": 0.0, "upfront": 0.0}])]
+    cat += [("repairs", ("c", "repair_delay"), [[0], [0, 30]]),
+            ("repairs", ("c", "repair_cost"), [[0.0], [1.0, 1000.0]]),
+            ("durations", ("c", "rep", "duration"), [1, 2]),
+            ("durations", ("c", "nonrep", "duration"), [1]),
+            ("estimate", ("c", "duration_factor"), [0.0, 0.001]),
+            ("sims", ("c", "n_sims"), [2, 3]),
+            ("economics", ("c", "economics"), ["per-program"])]
+    return cat
+
+
+def _wide_set(d, path, v):
+    for k in path[:-1]:
+        d = d[k]
+    d[path[-1]] = v
+
+
+def apply_wide(cfg, wide):
+    import random as _r
+
+    xr = _r.Random(cfg["weather_seed"] * 104729 + 71)
+    tags = None if wide is True else set(wide)
+    cat = [e for e in _wide_catalogue(cfg) if tags is None or e[0] in tags]
+    applied = []
+    for tag, path, vals in xr.sample(cat, min(len(cat), xr.choice([1, 2, 2, 3]))):
+        v = xr.choice(vals)
+        if path[0] == "m":
+            _wide_set(cfg["methods"][path[1]], path[2:], v)
+            if path[2] == "weather_envelopes":
+                cfg["consider_weather"] = True
+        elif path[-1] == "economics":
+            # every program gets its own economics block (defaults are 28.0 / 3.0 for all)
+            v = {p["name"]: {"global_warming_potential_CH4": xr.choice([28.0, 84.0, 1.0]),
+                             "sale_price_of_natural_gas": xr.choice([3.0, 0.0, 7.5])} for p in cfg["programs"]}
+            cfg["economics"] = v
+        else:
+            _wide_set(cfg, path[1:], v)
+        applied.append({"tag": tag, "path": list(path), "value": v})
+    cfg["wide_applied"] = applied
     return cfg
 
 
@@ -216,6 +304,8 @@ def method_params(name, m):
              "interaction_priority": fu["interaction_priority"], "proportion": fu["proportion"]}
         if fu.get("instant_threshold") is not None:
             d["instant_threshold"] = fu["instant_threshold"]
+        if "sort_by_rate" in fu:
+            d["sort_by_rate"] = fu["sort_by_rate"]
         if m["deployment_type"] == "mobile":
             d["threshold"] = fu["threshold"]
             d["redundancy_filter"] = fu["redundancy_filter"]
@@ -332,6 +422,8 @@ def materialize(cfg, root):
     for p in cfg["programs"]:
         d = {"parameter_level": "programs", "version": "4.0", "program_name": p["name"], "method_labels": p["methods"],
              "duration_estimate": {"duration_factor": cfg["duration_factor"], "duration_method": cfg["duration_method"]}}
+        if (cfg.get("economics") or {}).get(p["name"]):
+            d["economics"] = dict(cfg["economics"][p["name"]])
         path = os.path.join(par_dir, p["name"] + ".yaml")
         _yaml_dump(d, path)
         files.append(path)
